@@ -3,3 +3,8 @@ CONSTANT Configs <- QuickConfigs
 INVARIANT PruningIsSumProduct
 INVARIANT ColumnsSumToOne
 INVARIANT AllAmbiguousIsOne
+INVARIANT ForwardIsPathSum
+INVARIANT PatchChainStochastic
+INVARIANT SwitchOneIsIndependent
+INVARIANT SwitchZeroIsOnePatch
+INVARIANT HmmSumsToOne
